@@ -105,7 +105,7 @@ def fk_expected_text(node, n):
 
 def parser_stage(res, tier, seed):
     rng = rng_for(seed, "C04", "P")
-    nproj = 60 if tier == "quick" else 600
+    nproj = 60 if tier == "quick" else 3000
     projs, metas = [], []
     for pi in range(nproj):
         decls, fkc = [], {}
@@ -237,7 +237,7 @@ def negative_stage(res, seed):
 
 def e2e_stage(res, tier, seed):
     rng = rng_for(seed, "C04", "E")
-    ncrates = 1 if tier == "quick" else 6
+    ncrates = 1 if tier == "quick" else 12
     crates = []
     for ci in range(ncrates):
         decls, fkc = [], {}
